@@ -4,6 +4,8 @@ import (
 	"bytes"
 	"fmt"
 	"io"
+	"net"
+	"os"
 	"sort"
 	"verif/pkg/reg"
 
@@ -627,6 +629,7 @@ func init() {
 	execs["wfault"] = execWFault
 	execs["rfault"] = execRFault
 	execs["faulthistory"] = execFaultHistory
+	execs["oswriter"] = execOSWriter
 }
 
 func runC08(c *Ctx) *Replay {
@@ -782,6 +785,25 @@ func runC08(c *Ctx) *Replay {
 			}
 		}
 	}
+	// destinations that are operating-system objects (code may treat *os.File and net.Conn
+	// specially): a healthy file, and files / pipes / connections on which every Write fails
+	if c.R.Chance(1, 8) {
+		for _, kind := range osWriterKinds {
+			sc := base
+			sc.Kind = "oswriter"
+			sc.Extra = map[string]string{"os": kind}
+			viol := execOSWriter(c.N, &sc)
+			c.Count("evaluations", 1)
+			c.Count("fault:os-"+kind, 1)
+			c.State("c08os", shape, kind)
+			if viol != nil {
+				c.Log("os", kind, viol.Signature)
+				if rp := c.shrinkAndReport(&sc, viol); rp != nil {
+					return rp
+				}
+			}
+		}
+	}
 	// HISTORIES under faults: 2-4 records through ONE writer / ONE reader the caller keeps,
 	// the fault somewhere in the whole stream; every call is judged on its own
 	if c.R.Chance(1, 3) {
@@ -828,6 +850,111 @@ func runC08(c *Ctx) *Replay {
 		}
 	}
 	c.Log("done")
+	return nil
+}
+
+var osWriterKinds = []string{"file-ok", "file-closed", "file-readonly", "devfull", "ospipe-closed", "netpipe-closed"}
+
+// execOSWriter encodes the scenario's value onto a real operating-system object. For the
+// healthy file the content must equal MarshalBebop; on the others EVERY Write fails, so an
+// EncodeBebop that has anything to write must return an error.
+func execOSWriter(n *Node, sc *Scenario) *Violation {
+	b := n.Build(sc.Prog, sc.Mask, false)
+	if b == nil {
+		note(sc, "skipped", "build absent")
+		return nil
+	}
+	rec, err := n.fill(b, sc.Type, *sc.Value)
+	if err != nil {
+		return mismatch("bridge|fill", err.Error(), nil)
+	}
+	m := n.encode(rec, "marshal", sc.Order, nil, nil, "")
+	if m.Call.Panicked || len(m.Bytes) == 0 {
+		return nil
+	}
+	kind := recordKind(b.Schema, sc.Type)
+	how := sc.Extra["os"]
+	var w io.Writer
+	var cleanup []func()
+	defer func() {
+		for _, f := range cleanup {
+			f()
+		}
+	}()
+	var path string
+	switch how {
+	case "file-ok", "file-closed", "file-readonly":
+		f, err := os.CreateTemp("", "verif-c08-")
+		if err != nil {
+			note(sc, "skipped", err.Error())
+			return nil
+		}
+		path = f.Name()
+		cleanup = append(cleanup, func() { os.Remove(path) })
+		switch how {
+		case "file-ok":
+			cleanup = append(cleanup, func() { f.Close() })
+			w = f
+		case "file-closed":
+			f.Close()
+			w = f
+		default:
+			f.Close()
+			ro, err := os.Open(path)
+			if err != nil {
+				note(sc, "skipped", err.Error())
+				return nil
+			}
+			cleanup = append(cleanup, func() { ro.Close() })
+			w = ro
+		}
+	case "devfull":
+		f, err := os.OpenFile("/dev/full", os.O_WRONLY, 0)
+		if err != nil {
+			note(sc, "skipped", err.Error())
+			return nil
+		}
+		cleanup = append(cleanup, func() { f.Close() })
+		w = f
+	case "ospipe-closed":
+		pr, pw, err := os.Pipe()
+		if err != nil {
+			note(sc, "skipped", err.Error())
+			return nil
+		}
+		pr.Close()
+		cleanup = append(cleanup, func() { pw.Close() })
+		w = pw
+	case "netpipe-closed":
+		c1, c2 := net.Pipe()
+		c2.Close()
+		cleanup = append(cleanup, func() { c1.Close() })
+		w = c1
+	default:
+		return nil
+	}
+	simrt.SetMapOrder(sc.Order.Strategy, sc.Order.Seed)
+	var eerr error
+	cr := safeCall(0, 0, func() { eerr = rec.EncodeBebop(w) })
+	simrt.SetMapOrder(simrt.OrderNative, 0)
+	if v := callViolation(&cr, sc, b.Schema, "encode"); v != nil {
+		return v
+	}
+	if how == "file-ok" {
+		if eerr != nil {
+			return mismatch("encode-error|osfile", "EncodeBebop onto a healthy file failed: "+eerr.Error(), nil)
+		}
+		got, _ := os.ReadFile(path)
+		if !bytes.Equal(got, m.Bytes) {
+			return mismatch("encode-nil-but-different|"+kind+"|osfile", fmt.Sprintf("EncodeBebop onto a file returned nil but the file holds %d bytes that differ from MarshalBebop (%d bytes) at %d", len(got), len(m.Bytes), firstDiff(m.Bytes, got)), nil)
+		}
+		return nil
+	}
+	if eerr == nil {
+		return &Violation{Class: "nil-error", Signature: "nil-error|encode|" + kind + "|os-" + how,
+			Detail: fmt.Sprintf("every Write on this destination fails (%s) and the record has %d bytes to write, but EncodeBebop of %s returned nil", how, len(m.Bytes), sc.Type),
+			Facts:  map[string]string{"op": "encode", "record_kind": kind, "mode": how}}
+	}
 	return nil
 }
 
